@@ -98,6 +98,13 @@ def check(ctx):
     ok = any(unparse(r.value) == "Array(graph, merge_name, chunks, meta=x)" for r in returns(cr)) and [a.arg for a in cr.args.args] == ["x", "chunks"]
     ctx.ob("DELEG.rechunk.declared-chunks", cr, "_compute_rechunk(x, chunks) declares exactly `chunks` on its result", ok)
     check_loose(ctx, loose_for("C23"))
+    # ---------------- auto_chunks with previous chunks: the growth factor and its tolerance are both split
+    # evenly over the auto dimensions (same root)
+    ac = core.func("auto_chunks")
+    a1 = find("this_multiplier = multiplier ** (1 / len(last_autos))", ac)
+    a2 = find("this_chunksize_tolerance = chunksize_tolerance ** (1 / len(last_autos))", ac)
+    ok = len(a1) == 1 and len(a2) == 1 and bool(find("max_chunk_size = proposed * this_chunksize_tolerance", ac)) and bool(find("proposed = median_chunks[a] * this_multiplier", ac))
+    ctx.ob("SIB.auto-chunks.per-dimension-root", ac, "per dimension: multiplier ** (1/n) and chunksize_tolerance ** (1/n) with n = number of auto dimensions", ok, "" if ok else "the tolerance is applied in full to every auto dimension: with n auto dimensions the block may exceed the byte limit by tolerance**n")
 
 
 VARIANTS = [
